@@ -10,6 +10,7 @@
 //   T <table>   (EV format)                     table
 //   M <monodim>                                 mono
 //   V d <mask> xbits* centers*                  <bits of ndsplineeval<double>(x, centers, 1<<monodim)>
+//   H <ncoef> <k> (mono-bits32 scaled-bits32)*  scaled        (small-magnitude inactive shape: monotonic fits of data and of 2^k * data)
 //   U <ncoef> (mono-bits32 unc-bits32)*         unc           (inactive case only: both coefficient vectors)
 #include "common.h"
 #include <photospline/splinetable.h>
@@ -129,7 +130,7 @@ static Problem gen(Rng& r, long it, std::map<std::string, long>& stats, int fami
     if (r.coin(1, 4)) amp = S * std::ldexp(1.0, r.range(4, 30));   // or an amplitude relative to the small magnitude
     if (big && r.coin()) {                                  // or the small part relative to the large one: S = amp * 1e-1..1e-10
       if (r.coin(1, 3)) amp = std::ldexp(amp, -r.range(10, 40));
-      S = amp * std::pow(10.0, -1 - 9 * r.unit());
+      S = r.coin(1, 4) ? 0.0 : amp * std::pow(10.0, -1 - 9 * r.unit());   // S = 0: exactly zero before the onset (a cumulative distribution, say)
       delta = r.coin(1, 4) ? 0.0 : S / std::ldexp(1.0 + r.unit(), r.range(2, 21));
       D = delta * naxes[p.monodim];
       stats["small_part_relative_to_large"]++;
@@ -246,6 +247,22 @@ static void run_problem(const Problem& p, Rng& r, std::map<std::string, long>& s
       for (int d = 0; d < p.ndim; d++) fprintf(fc, " %d", c[d]);
       fprintf(fc, "\n"); fprintf(fi, "%llu\n", (unsigned long long)cbits(dv));
       stats["deriv_points"]++;
+    }
+  }
+  if (p.shape == 10) {
+    // scale equivariance: the monotonic fit of 2^k * data must be 2^k * (the monotonic fit of data); k brings the data to [1, 2)
+    double zmax = 0; for (double v : p.z) zmax = std::max(zmax, std::fabs(v));
+    if (zmax > 0 && std::isfinite(zmax)) {
+      int k = -std::ilogb(zmax);
+      Problem q = p; for (double& v : q.z) v = std::ldexp(v, k);
+      Table b; std::string e3;
+      if (do_fit(q, q.monodim, b, e3)) {
+        uint64_t nc = t.strides[0] * t.naxes[0];
+        fprintf(fc, "H %llu %d", (unsigned long long)nc, k);
+        for (uint64_t j = 0; j < nc; j++) fprintf(fc, " %u %u", bits(t.coefficients[j]), bits(b.coefficients[j]));
+        fprintf(fc, "\n"); fprintf(fi, "scaled\n");
+        stats["scaled_pairs"]++;
+      }
     }
   }
   if (p.shape == 5 || p.shape == 10) {
